@@ -81,7 +81,10 @@ ShiftCons(cons, D) == {i - Cardinality({d \in D : d < i}) : i \in cons \ D}
    The fold keeps a running state in which every atom record carries a
    transient flag mv ("some element was entitled to move this atom").
    ------------------------------------------------------------------- *)
-Mark(atoms) == [i \in 1..Len(atoms) |-> [a |-> atoms[i], mv |-> FALSE]]
+\* (fresh: the atom was appended by an insertion of this trial; its tokens are read from the observed state at the
+\*  index the atom has AFTER the whole call -- a deletion later in the same trial shifts it)
+Mark(atoms) == [i \in 1..Len(atoms) |-> [a |-> atoms[i], mv |-> FALSE, fresh |-> FALSE]]
+Placeholder == [sp |-> 0, pos |-> 0, mom |-> 0, rest |-> 0]
 
 RECURSIVE NewLabels(_, _, _, _)
 (* labels for n particles of size k appended after `lab`: the configured
@@ -118,7 +121,7 @@ InsSub(setup, s, r, m, sub, o) ==
     IF ~sub.ok THEN r
     ELSE LET k == setup.tmplLen
              n0 == Len(r.m)
-             new == [j \in 1..k |-> [a |-> o.atoms[n0 + j], mv |-> TRUE]]
+             new == [j \in 1..k |-> [a |-> Placeholder, mv |-> TRUE, fresh |-> TRUE]]
          IN [r EXCEPT !.m = @ \o new,
                       !.added = @ \o [j \in 1..k |-> n0 + j - 1],      \* 0-based, as the context stores them
                       !.pdelta = @ + 1,
@@ -198,6 +201,7 @@ AfterCall(setup, s, entry, subs, o) ==
         n == Len(r.m)
         atoms == [j \in 1..n |->
                     IF r.free THEN o.atoms[j]
+                    ELSE IF r.m[j].fresh THEN (IF j <= Len(o.atoms) THEN o.atoms[j] ELSE r.m[j].a)
                     ELSE IF r.m[j].mv \/ (setup.fixcom /\ \E i \in 1..n : r.m[i].mv)
                     THEN IF r.ham
                          THEN [r.m[j].a EXCEPT !.pos = IF j \in r.cons THEN @ ELSE o.atoms[j].pos,
